@@ -104,6 +104,17 @@ partial def go (steps : List String) (res : List String) (k : Nat) (pool : List 
       pool' := pool.set ix (some { A with final := A.final ++ qs }); nmut := nmut + 1
     | "erasefinal" => let ix ← argN 1; let A ← ent 1; pool' := pool.set ix (some { A with final := [] }); nmut := nmut + 1
     | "clear" => let ix ← argN 1; let _ ← ent 1; pool' := pool.set ix (some ⟨[], []⟩); nmut := nmut + 1
+    | "loadinto" =>
+      -- `LoadFromString` into an existing automaton = the old value plus the image of the loaded description under the two
+      -- translations the loader used (printed by the harness): `load_dump_roundtrip` / the loader model of `Vata/LoadDump.lean`
+      let ix ← argN 1; let A ← ent 1
+      let N ← getE (parts[2]? >>= parseTA?) "bad TA"
+      let ld ← getE ((kv res s!"ld{k}") >>= parseMap?) "missing state dictionary"
+      let sy ← getE ((kv res s!"sy{k}") >>= parseMap?) "missing symbol translation"
+      let fs := fun q => (ld.lookup q).getD q
+      let fy := fun a => (sy.lookup a).getD a
+      let img : List Rule := N.rules.map (fun r => ⟨fy r.sym, r.kids.map fs, fs r.parent⟩)
+      pool' := pool.set ix (some ⟨A.rules ++ img, A.final ++ N.final.map fs⟩); nmut := nmut + 1
     | "unreach" => let A ← ent 1; pool' := pool ++ [some (removeUnreachable A)]
     | "useless" => let A ← ent 1; pool' := pool ++ [some (removeUseless A)]
     | "cand" | "reduce" | "union" | "isect" | "isectbu" =>
